@@ -150,6 +150,44 @@ def run(run):
     if missing:
         run.violation('release-unsupported', 'a release the README lists is '
                       'not a supported protocol', {'versions': missing})
+    # release names: what a user who asks for '1.16' gets
+    if run.shard == 0:
+        assert sorted(set(ref.RELEASE_NAMES.values())) == sorted(ref.RELEASES)
+        for name, pv_doc in sorted(ref.RELEASE_NAMES.items()):
+            run.count('release_names_checked')
+            run.case(('release-name', name))
+            got = minecraft.KNOWN_MINECRAFT_VERSIONS.get(name)
+            if got != pv_doc:
+                run.violation('release-name/number', 'a release name does not '
+                              'resolve to its published protocol number',
+                              {'name': name, 'tree': got,
+                               'documented': pv_doc})
+            if minecraft.SUPPORTED_MINECRAFT_VERSIONS.get(name) != pv_doc:
+                run.violation('release-name/supported', 'a release the README '
+                              'lists as supported is not in the table of '
+                              'supported versions (or maps to another number)',
+                              {'name': name, 'tree': minecraft.
+                               SUPPORTED_MINECRAFT_VERSIONS.get(name)})
+            if name not in minecraft.RELEASE_MINECRAFT_VERSIONS:
+                run.violation('release-name/release-table', 'a release is '
+                              'missing from the table of release versions',
+                              {'name': name})
+        # and the README of the tree lists the same names
+        try:
+            import os, re
+            readme = open(os.path.join(os.path.dirname(os.path.dirname(
+                minecraft.__file__)), 'README.rst')).read()
+            listed = set(re.findall(r'\b1\.\d+(?:\.\d+)?\b', readme.split(
+                'Supported Minecraft versions')[1].split('In addition')[0]))
+            if listed != set(ref.RELEASE_NAMES):
+                run.violation('release-name/readme', 'the releases named by '
+                              'the README differ from the documented ones',
+                              {'only_readme': sorted(listed - set(
+                                  ref.RELEASE_NAMES)),
+                               'only_reference': sorted(set(
+                                   ref.RELEASE_NAMES) - listed)})
+        except (OSError, IndexError):
+            pass
     case = 0
     # Releases are visited in a seeded shuffled order and, for every other
     # packet, through one long-lived context object whose protocol version is
